@@ -45,6 +45,7 @@ SPEC = dict(
         ("STEPD", "_update", "value"): BOOL,  # the error stream: 0/1 (False/True)
         ("GaussianUnknownMean", "log_pred_prob", "idx"): INT, ("GaussianUnknownMean", "log_pred_prob", "value"): NUM,
         ("GaussianUnknownMean", "update", "value"): NUM,
+        ("ADWIN", "_calculate_threshold", "w0_instances"): INT, ("ADWIN", "_calculate_threshold", "w1_instances"): INT,
         ("Bucket", "insert_data", "value"): NUM, ("Bucket", "insert_data", "variance"): NUM,
     },
     # calls on these attributes are uninterpreted functions (section variables of the generated file)
@@ -82,6 +83,8 @@ SPEC = dict(
         "BOCD": [("_config", obj("BOCDConfig")), ("_num_instances", INT), ("drift", BOOL), ("_additional_vars.log_r", lst(lst(NUM))),
                  ("_additional_vars.predicted_mean", opt(NUM)), ("_additional_vars.predicted_var", opt(NUM)),
                  ("_additional_vars.log_message", lst(NUM)), ("_model", obj("GaussianUnknownMean"))],
+        # only the fields `_calculate_threshold` reads (the bucket deque and the other counters are outside the subset)
+        "ADWIN": [("_config", obj("ADWINConfig")), ("_additional_vars.variance", NUM), ("_additional_vars.width", INT)],
         "KSWIN": [("_config", obj("KSWINConfig")), ("_num_instances", INT), ("drift", BOOL), ("_additional_vars.window", lst(NUM))],
         "ECDDWT": [("_config", obj("ECDDWTConfig")), ("_num_instances", INT), ("drift", BOOL), ("_additional_vars.p", obj("Mean")),
                    ("_additional_vars.z", obj("EWMA")), ("_additional_vars.warning", BOOL), ("_lambda_div_two_minus_lambda", NUM)],
@@ -113,6 +116,7 @@ UNITS = [
     ("STEPD", "_update"), ("STEPD", "reset"),
     ("KSWIN", "_update"), ("KSWIN", "reset"),
     ("GaussianUnknownMean", "update"), ("BOCD", "_update"), ("BOCD", "reset"),
+    ("ADWIN", "_calculate_threshold"),
     ("Bucket", "__init__"), ("Bucket", "reset"), ("Bucket", "insert_data"), ("Bucket", "compress"), ("Bucket", "remove"),
     ("HDDMA1", "_update"), ("HDDMA1", "reset"), ("HDDMA2", "_update"), ("HDDMA2", "reset"),
     ("HDDMW1", "_update"), ("HDDMW1", "reset"), ("HDDMW2", "_update"), ("HDDMW2", "reset"),
